@@ -1313,8 +1313,13 @@ void mcount_exit_filter_record(struct mcount_thread_data *mtdp, struct mcount_re
 		if (mtdp->record_idx > 0)
 			mtdp->record_idx--;
 
-		if (!mcount_enabled)
+		if (!mcount_enabled) {
+			/* the entry hook ran for this frame: keep the script callbacks paired */
+			if (SCRIPT_ENABLED && script_str)
+				script_hook_exit(mtdp, rstack);
+
 			return;
+		}
 
 		if (rstack->flags & MCOUNT_FL_RETVAL) {
 			struct uftrace_trigger tr;
